@@ -245,11 +245,14 @@ def check_constructors(led):
     for kind, meth, lst in (('blade1d', 'add_bladestiff1d', 'bladestiff1ds'), ('blade2d', 'add_bladestiff2d', 'bladestiff2ds'), ('t2d', 'add_tstiff2d', 'tstiff2ds')):
         func = BF + meth
         led.function(func)
-        for form, mu_given in itertools.product(('single thickness and material', 'per-ply lists'), (False, True)):
+        for form, mu_given, pos in itertools.product(('single thickness and material', 'per-ply lists'), (False, True), ('interior', 'edge y=0', 'edge y=b')):
+            if pos != 'interior' and (mu_given or form != 'per-ply lists'):
+                continue
+            ys_val = {'interior': real('ycut'), 'edge y=0': P.const(0), 'edge y=b': real('b')}[pos]
             bstack = [real('thb0'), real('thb1'), real('thb2')]
             fstack = [real('thf0'), real('thf1')]
             matb, matf = tuple(real(x + '_b') for x in MAT), tuple(real(x + '_f') for x in MAT)
-            kw = dict(ys=real('ycut'), bb=real('bb'), bf=real('bf'), bstack=bstack, fstack=fstack)
+            kw = dict(ys=ys_val, bb=real('bb'), bf=real('bf'), bstack=bstack, fstack=fstack)
             if form.startswith('single'):
                 kw.update(bplyt=real('tb'), blaminaprop=matb, fplyt=real('tf'), flaminaprop=matf)
                 want = dict(bplyts=[real('tb')] * 3, blaminaprops=[matb] * 3, fplyts=[real('tf')] * 2, flaminaprops=[matf] * 2)
@@ -271,7 +274,7 @@ def check_constructors(led):
                 s = it.call(it.getattr(bay, meth), [], dict(kw))
                 return bay, p1, p2, s
             for path, out in it.explore(run):
-                name = '%s[%s,mu %s]' % (func, form, 'given' if mu_given else 'from the bay')
+                name = '%s[%s,mu %s%s]' % (func, form, 'given' if mu_given else 'from the bay', '' if pos == 'interior' else ',' + pos)
                 if out[0] != 'return':
                     if out[1].tname == 'RuntimeError' and 'a/b > 10' in ''.join(str(x) for x in out[1].eargs):
                         continue          # documented refusal of slender T-stiffener components with low series orders
@@ -282,11 +285,12 @@ def check_constructors(led):
                 a_ = s.attrs
                 if 'mu' in a_ and not same(a_.get('mu'), real('mu_stiffener') if mu_given else bay.attrs['mu']):
                     probs.append('stiffener.mu = %s' % pycheck.describe(a_.get('mu')))
-                if a_.get('panel1') is not p1 or a_.get('panel2') is not p2:
-                    probs.append('panel1 / panel2 are not the skin panels that end / start at the stiffener position')
+                wp1, wp2 = {'interior': (p1, p2), 'edge y=0': (p1, p1), 'edge y=b': (p2, p2)}[pos]
+                if a_.get('panel1') is not wp1 or a_.get('panel2') is not wp2:
+                    probs.append('panel1 / panel2 are not the skin panels that end / start at the stiffener position (the edge panel on both sides for a stiffener on an edge)')
                 if a_.get('bay') is not bay:
                     probs.append('stiffener.bay is not the bay')
-                for k_, w in (('ys', real('ycut')), ('bb', real('bb')), ('bstack', bstack), ('bplyts', want['bplyts']), ('blaminaprops', want['blaminaprops'])):
+                for k_, w in (('ys', ys_val), ('bb', real('bb')), ('bstack', bstack), ('bplyts', want['bplyts']), ('blaminaprops', want['blaminaprops'])):
                     if k_ in a_ and not same(a_[k_], w):
                         probs.append('stiffener.%s = %s, expected %s' % (k_, pycheck.describe(a_[k_]), pycheck.describe(w)))
                 # the laminate definitions must arrive at the component panels / beam constants
